@@ -179,7 +179,52 @@ def run(tier: str, seed: int):
         ws.close()
 
 
+INCLUDE_ORDER_FILES = {
+    ".fortls": '{"source_dirs": ["src"], "include_dirs": ["zinc", "ainc"]}',
+    "src/a.F90": '#include "defs.h"\nmodule a_m\n  MYT :: ax\nend module a_m\n',
+    "src/defs.h": "#define MYT integer\n", "zinc/defs.h": "#define MYT real\n", "ainc/defs.h": "#define MYT logical\n"}
+
+
+def include_order_hover(root: str):
+    from replay.harness import make_server, parse_out
+    from fortls.jsonrpc import path_to_uri
+    srv, rw = make_server()
+    srv.handle({"jsonrpc": "2.0", "id": 0, "method": "initialize", "params": {"rootUri": path_to_uri(root), "rootPath": root}})
+    rw.out.clear()
+    uri = path_to_uri(os.path.join(root, "src", "a.F90"))
+    srv.handle({"jsonrpc": "2.0", "id": 1, "method": "textDocument/hover",
+                "params": {"textDocument": {"uri": uri}, "position": {"line": 2, "character": 10}}})
+    r = [m for m in parse_out(rw.out) if m.get("id") == 1]
+    return json.dumps(r[0].get("result") if r else None)
+
+
+def include_search_order(tier: str):
+    """a header that exists in the including file's directory and in two configured include directories: which one is
+    read must not depend on the interpreter's hash seed (a separate interpreter per seed)"""
+    from replay.harness import Workspace
+    ws = Workspace(INCLUDE_ORDER_FILES)
+    try:
+        seen = {}
+        seeds = range(12) if tier == "thorough" else range(6)
+        for hs in seeds:
+            env = dict(os.environ, PYTHONHASHSEED=str(hs), PYTHONPATH=os.pathsep.join(p for p in sys.path if p))
+            r = subprocess.run([sys.executable, os.path.abspath(__file__), ws.root, "incorder", "-", "0"], capture_output=True,
+                               text=True, env=env, timeout=300)
+            if r.returncode != 0:
+                raise RuntimeError(f"include-order subprocess failed: {r.stderr[-600:]}")
+            seen.setdefault(r.stdout.strip(), []).append(hs)
+        if len(seen) > 1:
+            return {"files": INCLUDE_ORDER_FILES, "query": "hover on ax (src/a.F90 line 3)",
+                    "answers_by_PYTHONHASHSEED": {k[:160]: v for k, v in seen.items()}}, len(seeds)
+        return None, len(seeds)
+    finally:
+        ws.close()
+
+
 if __name__ == "__main__":
     base_, mode_, arg_, seed_ = sys.argv[1], sys.argv[2], sys.argv[3], int(sys.argv[4])
     sys.path[:0] = [os.path.dirname(os.path.dirname(os.path.abspath(__file__)))]
-    print(json.dumps(run_schedule(base_, mode_, arg_, workspace_files(seed_))))
+    if mode_ == "incorder":
+        print(include_order_hover(base_))
+    else:
+        print(json.dumps(run_schedule(base_, mode_, arg_, workspace_files(seed_))))
